@@ -310,7 +310,7 @@ def run(ctx, driver):
     import h2x
     for i in range(60 if ctx.quick else 6000):
         cfg = {"max_connections": rng.choice([1, 2]), "callers": rng.randint(2, 5), "p_fault": 0.3, "p_cancel": rng.choice([0.0, 0.2]),
-               "cancel_phase": "any", "p_goaway": 0.1, "p_eof": 0.05, "p_rst": 0.1, "segment": rng.choice(["whole", "coarse", "fine"]),
+               "cancel_phase": "any", "p_goaway": 0.1, "p_eof": 0.05, "p_rst": 0.1, "p_badframe": rng.choice([0.0, 0.15]), "segment": rng.choice(["whole", "coarse", "fine"]),
                "init_max_streams": rng.choice([1, 2, 10]), "ups": [0, 0, 300, 70000], "max_steps": 120}
         seed = rng.randrange(1 << 30)
         rt = ("asyncio", "trio")[i % 2]
@@ -333,6 +333,32 @@ def run(ctx, driver):
                     rec.fail("class-does-not-match-cause", {"proto": "h2-concurrent", "cause": "stream-reset-by-server", "got": "LocalProtocolError"},
                              {"runtime": rt, "cfg": cfg, "seed": seed, "caller": c.idx, "exception": getattr(c, "exc", None),
                               "trace": [list(map(str, t)) for t in ex.trace][-40:], "how_to_replay": "h2x.run_one(runtime, cfg, seed)"})
+    # bytes no HTTP/2 peer may send, while several streams are alive, and nothing else going wrong: every caller that fails fails with
+    # RemoteProtocolError - whichever of them happened to be reading when the garbage arrived
+    stored_g = [(k["replay_args"]["runtime"], k["replay_args"]["cfg"], k["replay_args"]["seed"]) for k in core.load_known()
+                if k["property"] == ID and (k.get("replay_args") or {}).get("engine") == "h2x-garbage"]
+    for i in range(-len(stored_g), 80 if ctx.quick else 3000):
+        if i < 0:
+            rt, cfg, seed = stored_g[i]
+        else:
+            cfg = {"max_connections": 1, "callers": rng.randint(2, 5), "p_badframe": 0.3, "segment": rng.choice(["whole", "coarse"]),
+                   "init_max_streams": 10, "ups": [0, 0, 300], "downs": [10, 3000, 70000], "max_steps": 120, "coalesce": rng.random() < 0.5}
+            seed = rng.randrange(1 << 30)
+            rt = ("asyncio", "trio")[i % 2]
+        ex = h2x.run_one(rt, cfg, seed)
+        rec.evals += 1
+        rec.distinct.add(("h2x-garbage", rt, tuple(map(str, ex.trace))))
+        if not any(t[0] == "badframe" for t in ex.trace):
+            continue
+        rec.dist["h2-garbage:schedules"] += 1
+        for c in ex.callers:
+            rec.dist[f"h2-garbage:{c.outcome}"] += 1
+            if c.outcome.startswith("error:") and c.outcome != "error:RemoteProtocolError":
+                cls = getattr(c, "exc", "?").split("(")[0]
+                clause = "undocumented-exception" if c.outcome == "error:Other" else "class-does-not-match-cause"
+                rec.fail(clause, {"proto": "h2-concurrent", "cause": "remote-garbage", "class" if c.outcome == "error:Other" else "got": cls if c.outcome == "error:Other" else c.outcome[6:]},
+                         {"runtime": rt, "cfg": cfg, "seed": seed, "caller": c.idx, "exception": getattr(c, "exc", None),
+                          "trace": [list(map(str, t)) for t in ex.trace][-40:], "how_to_replay": "h2x.run_one(runtime, cfg, seed)"})
     # resets while uploading, nothing else
     stored = h2x.corpus(ctx, ID)
     for i in range(-len(stored), 40 if ctx.quick else 800):
